@@ -218,5 +218,54 @@ Example format_rescan_example :
   end.
 Proof. vm_compute. repeat split; reflexivity. Qed.
 
+(* the lift of C02_rescan_after_respacing proper: when no token's text was rewritten and every gap the formatter leaves satisfies the
+   per-class gap condition of LexerRelayoutProofs (gaps_ok: a non-empty blank after an ordinary token, a line end after a `//`
+   comment, ...), the output re-scans to the input's tokens with the new gaps *)
+Lemma flatten_respace : forall segs ws' first, length ws' = length segs ->
+  flatten (LexerRelayoutProofs.respace first ws' segs) = concat (map (fun wc : bytes * bytes => fst wc ++ snd wc) (combine ws' (map seg_content segs))).
+Proof.
+  unfold flatten. induction segs as [|[[wo c] ty] r IH]; intros [|w ws'] first H; cbn in H; try discriminate; [reflexivity|].
+  cbn [LexerRelayoutProofs.respace map combine concat seg_bytes fst snd seg_content]. rewrite IH by congruence. reflexivity.
+Qed.
+
+Theorem format_rescan_respaced alnum cfg s out :
+  format_model alnum cfg s = inl out ->
+  exists toks, lex s = Some toks /\
+    let segs := segments toks s in
+    let parts := recon_parts (cfg_rs cfg) false (fm_final alnum cfg segs) in
+    map snd parts = map seg_content segs ->
+    gaps_ok PNone (map fst parts) segs ->
+    lex out = Some (map seg_lens (LexerRelayoutProofs.respace true (map fst parts) segs)).
+Proof.
+  intros H. apply format_model_spec in H. destruct H as (segs & Hl & _ & _ & _ & ->).
+  unfold lex_segments in Hl. destruct (lex s) as [toks|] eqn:E; [|discriminate]. injection Hl as <-.
+  exists toks. split; [reflexivity|]. intros segs parts Hc Hg.
+  assert (Hlen : length (map fst parts) = length segs).
+  { subst parts. rewrite map_length, recon_parts_length. apply fm_final_length. }
+  assert (Eo : fm_out alnum cfg segs = flatten (LexerRelayoutProofs.respace true (map fst parts) segs)).
+  { rewrite flatten_respace by exact Hlen. rewrite <- Hc. unfold fm_out, reconstruct. rewrite recon_is_parts. fold parts.
+    unfold flatten_parts. f_equal. clear. induction parts as [|[g b] r IH]; [reflexivity|]. cbn. rewrite <- IH. reflexivity. }
+  fold segs. rewrite Eo. exact (lex_relayout s toks (map fst parts) E Hg).
+Qed.
+
+(* non-vacuity of the hypothesis itself: for `A:=B` the planned file of the output IS a relayout (through respace_relayout: the
+   texts are unchanged and every gap the formatter leaves is a non-empty blank) *)
+Example format_rescan_hypothesis_example :
+  let s := [65; 58; 61; 66]%N in
+  let cfg := mkCfg 120 false true false 2 2 false in
+  exists segs, lex_segments s = Some segs /\ relayout init_state (format_osegs (fun _ => false) cfg segs)
+               /\ format_model (fun _ => false) cfg s = inl [65; 32; 58; 61; 32; 66; 10]%N.
+Proof.
+  intros s cfg.
+  destruct (lex s) as [toks|] eqn:E; [|vm_compute in E; discriminate].
+  exists (segments toks s). split; [unfold lex_segments; rewrite E; reflexivity|]. split; [|vm_compute; reflexivity].
+  assert (Eo : format_osegs (fun _ => false) cfg (segments toks s)
+               = LexerRelayoutProofs.respace true [[]; [32]; [32]; [10]]%N (segments toks s)).
+  { vm_compute in E. injection E as <-. vm_compute. reflexivity. }
+  rewrite Eo. refine (proj1 (respace_relayout init_state toks s (lex_steps_sound s toks E) PNone _ _)).
+  vm_compute in E. injection E as <-. cbn. repeat split; try reflexivity; try (left; discriminate); try (right; reflexivity).
+Qed.
+
 Print Assumptions format_tokens_kept.
 Print Assumptions format_rescan.
+Print Assumptions format_rescan_respaced.
